@@ -139,6 +139,7 @@ func resolveSide(p *Prog, owner string) *taskSide {
 	if !ok {
 		undecided("task type %s is not a struct", s.taskT)
 	}
+	var idCands []*types.Var
 	for i := 0; i < st.NumFields(); i++ {
 		f := st.Field(i)
 		switch t := f.Type().(type) {
@@ -154,10 +155,7 @@ func resolveSide(p *Prog, owner string) *taskSide {
 			}
 		case *types.Basic:
 			if t.Kind() == types.Int32 {
-				if s.curID != nil {
-					undecided("task type %s has two int32 fields", s.taskT)
-				}
-				s.curID = f
+				idCands = append(idCands, f)
 			}
 		}
 		if n := namedOf(f.Type()); n != nil && types.IsInterface(n) && n.Obj().Pkg() != nil && n.Obj().Pkg().Path() == p.ModPath &&
@@ -167,6 +165,23 @@ func resolveSide(p *Prog, owner string) *taskSide {
 			}
 			s.stream = f
 		}
+	}
+	switch len(idCands) {
+	case 0:
+	case 1:
+		s.curID = idCands[0]
+	default:
+		// several int32 fields: the task's own id is the one that is compared with the shared counter
+		var hits []*types.Var
+		for _, c := range idCands {
+			if comparedWithCounter(s.fn, c, s.counter) {
+				hits = append(hits, c)
+			}
+		}
+		if len(hits) != 1 {
+			undecided("task type %s has %d int32 fields and %d of them are compared for equality with the shared counter", s.taskT, len(idCands), len(hits))
+		}
+		s.curID = hits[0]
 	}
 	if s.counter == nil || s.curID == nil || s.stream == nil || s.wg == nil {
 		undecided("task type %s: cannot identify counter/id/stream/wg fields", s.taskT)
@@ -1023,6 +1038,12 @@ func mayBeNil(v ssa.Value, depth int) bool {
 	case *ssa.UnOp:
 		// named result read back after `*result = v; rundefers`: use the last store in the same block
 		if x.Op == token.MUL {
+			// sentinel errors of the standard library (io.EOF, io.ErrNoProgress, ...) are never nil
+			if g, ok := x.X.(*ssa.Global); ok && g.Pkg != nil && isErrType(x.Type()) {
+				if pp := g.Pkg.Pkg.Path(); !strings.Contains(pp, ".") && (strings.HasPrefix(g.Name(), "Err") || g.Name() == "EOF") {
+					return false
+				}
+			}
 			if al, ok := x.X.(*ssa.Alloc); ok {
 				var last ssa.Value
 				for _, in := range x.Block().Instrs {
@@ -1339,4 +1360,71 @@ func staleBase(p *Prog, s *taskSide, v ssa.Value, resolve func(ssa.Value) ssa.Va
 func isInt32(t types.Type) bool {
 	b, ok := t.Underlying().(*types.Basic)
 	return ok && b.Kind() == types.Int32
+}
+
+// comparedWithCounter: in fn (or a same-package helper it calls with the values) a value derived from field idf of the
+// receiver is compared with == / != against a value loaded atomically through the pointer field ctr.
+func comparedWithCounter(fn *ssa.Function, idf, ctr *types.Var) bool {
+	if ctr == nil {
+		return false
+	}
+	fromField := func(v ssa.Value, f *types.Var) bool {
+		seen := map[ssa.Value]bool{}
+		var walk func(v ssa.Value, d int) bool
+		walk = func(v ssa.Value, d int) bool {
+			if v == nil || seen[v] || d > 8 {
+				return false
+			}
+			seen[v] = true
+			if fv := fieldVarOfLoad(v); fv == f {
+				return true
+			}
+			switch x := v.(type) {
+			case *ssa.BinOp:
+				return walk(x.X, d+1) || walk(x.Y, d+1)
+			case *ssa.Convert:
+				return walk(x.X, d+1)
+			case *ssa.Phi:
+				for _, e := range x.Edges {
+					if walk(e, d+1) {
+						return true
+					}
+				}
+			case *ssa.Call:
+				if isAtomic(&x.Call, "LoadInt32") {
+					for _, a := range x.Call.Args {
+						if walk(a, d+1) {
+							return true
+						}
+					}
+				}
+			case *ssa.UnOp:
+				return walk(x.X, d+1)
+			}
+			return false
+		}
+		return walk(v, 0)
+	}
+	found := false
+	check := func(f *ssa.Function) {
+		eachInstr(f, func(i ssa.Instruction) {
+			if c := callOf(i); c != nil && isAtomic(c, "CompareAndSwapInt32") && len(c.Args) >= 2 {
+				if fromField(c.Args[0], ctr) && fromField(c.Args[1], idf) {
+					found = true
+				}
+			}
+			bo, ok := i.(*ssa.BinOp)
+			if !ok || (bo.Op != token.EQL && bo.Op != token.NEQ) {
+				return
+			}
+			if (fromField(bo.X, idf) && fromField(bo.Y, ctr)) || (fromField(bo.Y, idf) && fromField(bo.X, ctr)) {
+				found = true
+			}
+		})
+	}
+	check(fn)
+	for _, af := range fn.AnonFuncs {
+		check(af)
+	}
+	return found
 }
